@@ -10,6 +10,14 @@ claimed = {
    text="Deductive proof on the real writer code: getObjState equals the decision function written from the property (all orders of the three timestamps and both presence bits, full uint64); the three readiness functions decide from the recorded times keyed by source names and probe the mapped names only when unknown, recording a successful probe under the source create key; the cascade WaitObjReady skips exactly on a recorded drop at the first undecided level; and every skip-aware operation (create/drop/alter index, load/release collection, create/drop partition, create/drop collection) issues no downstream request when a drop is recorded, exactly one when the incarnation is recorded created, and returns no error for a failed call on an object recorded dropped meanwhile. Findings F21 (alterIndex had no re-check) fixed.",
    note="Create/drop tables are ghost maps attached to core/util.Map objects (built-in model, trusted). DataHandler methods are trusted interface contracts (ghost call record; an operation call is a synchronisation point where other DDL handlers may update the tables). retry.Do model: >=1 attempt. Partition-list operations: skip filtering of individual partitions is not yet proved (only request count/routing). Not decided: truth of the recorded times (C15 / downstream probes).",
    design="3 (C08)"),
+ "C04": dict(
+   text="Deductive proof on the real barrier goroutine (NewBarrier's closure): the update callback runs once per received shard signal, the drop callback fires at most once and only after Dest signals were received by this barrier (funcparam precondition at its call site), closing the barrier never fires it, and the wait loop terminates on every arm (decreases clause). Finding F8 (goroutine spinning forever after close) was found by the failing termination obligation, reproduced and fixed.",
+   note="Receives are counted by a ghost per-barrier counter (chancount). Callbacks are assumed not to modify the barrier (funcparam frames). Not yet under contract: once-only signal per shard (OnceWriteChan), barrier sizing and the event callbacks in StartReadCollection/AddPartition, synthetic drops; registration races (schedules) and exactly-once across restarts (histories) are out of reach.",
+   design="3 (C04)"),
+ "C11": dict(
+   text="Deductive proof on the real code of the state-machine kernel: the three per-state task gauge sets stay pairwise disjoint under Add/UpdateState/Delete and move a task only if it was counted under the given old state; UpdateTaskState writes at most one record, which carries the new state and reason, and never deletes; DeleteTask removes record and checkpoints inside one transaction that is finished exactly once (commit only after both deletes, no delete outside it); TaskState.IsValidTaskState is exactly {Initial, Running, Paused}; the barrier goroutine terminates after close (F8 fixed).",
+   note="Singleton gauge object well-formedness is assumed (constructor). Not yet under contract: MetaCDC.Create/Pause/Resume/Delete/ReloadTask, pauseTaskWithReason (four-view agreement, refcount/cleanup), reader shutdown. Restart histories and leftover goroutines inside dependencies are out of reach.",
+   design="3 (C11)"),
  "C06": dict(
    text="Deductive proof (with the zero-annotation no-panic sweep) on the real hand-over path of the reader: innerHandleReplicateMsg never panics whatever handlePack returns (nil included), emits at most one pack labelled with the stream's task/collection/channel, SendTargetMsg enqueues exactly the given pack, and sendErrEvent emits exactly one ReplicateError event naming the owning task. Two genuine defects (F1 nil dereference, F2 events without task id) were found by failing obligations, reproduced on the real code and repaired by fix: commits.",
    note="handlePack itself is not yet verified: at its call site only the frame `modifies * except out` is assumed. Server-side pause path (pauseTaskWithReason, event loop, batch callback) not yet under contract (DESIGN.md section 10). Channel sends are ghost events; goroutine interleavings are out of reach.",
